@@ -162,6 +162,7 @@ std::string judge(const Case& k, const coop::RunResult& r, bool& inconclusive) {
     if (r.status == "crash") return "engine crashed: " + r.detail;
     if (r.status != "ok") return "unexpected run status " + r.status;
     for (auto& q : r.quiescent) if (!q.ok) return "helper thread not idle/acknowledged after a search ended (step " + std::to_string(q.step) + "):" + q.detail;
+    if (!r.wrongResult.empty()) return "helper result attributed to the wrong search: " + r.wrongResult;
     if (!r.threadsAllExited) return "main returned after quit/EOF but some thread never exited";
     // transcript in scheduling order -> the C05 monitor
     sess::Session s; s.cmds = k.cmds;
@@ -192,6 +193,7 @@ void classify(const Case& k, const coop::RunResult& r, vh::Stats& st) {
     else st.cls("plain");
     st.count("scheduling steps", r.steps);
     st.count("pre-emptions", r.preemptions);
+    st.count("helper results acted upon", r.helperResultsUsed);
     for (auto& e : r.in) if (e.forced) { st.count("script commands forced (condition could not become true)"); break; }
     for (auto& c : k.cmds) { if (c.kind == "ponderhit") { st.cls("has ponderhit"); break; } }
     for (auto& c : k.cmds) { if (c.kind == "eof") { st.cls("ends with EOF"); break; } }
